@@ -20,7 +20,9 @@
      a and b / a or b / not a     operate on the truth of operands of any type, yield a bool, and / or evaluate
                                   the right operand only when the left one does not decide;
      {% for v in s %} / range     with {% else %}: the else body is rendered iff the collection has no element
-                                  (a break in the first iteration does not render it);
+                                  (a break in the first iteration does not render it); for v in <map> iterates over the KEYS;
+     {# ... #} / {% raw %}t{% end %} a comment renders nothing, a raw statement renders its content as it is;
+     import / extends / render     are given by translation to one file (TmEquiv below);
      {% macro M(p T) %}B{% end %} declares in the current block a function M whose call renders B into a value of
                                   the file's format type (.txt: string); B sees the variables of the enclosing
                                   blocks by reference; {{ M(a) }} / {% show M(a) %} render that value, {% M(a) %}
@@ -36,7 +38,7 @@
                                   call, with the variables as they are at that moment.
    Text is ASCII letters only and nothing is emitted between the tags, so neither the white-space cut rules (C15)
    nor the context-dependent escaping (C06/C07) take part; the trees are valid in .txt and (those marked) in .html. *)
-EXTENDS Integers, Sequences, FiniteSets, TmplText
+EXTENDS Integers, Sequences, FiniteSets, TmplText, Utf8
 
 (* =====================================================================================
    PART 1 - abstract syntax
@@ -56,17 +58,23 @@ XLen(a) == [e |-> "len", a |-> a]
 XIdx(a, i) == [e |-> "idx", a |-> a, i |-> i]
 XCall(f, args) == [e |-> "call", f |-> f, args |-> args]         \* f: name of a macro / macro-valued variable / itea
 XDef(v, d) == [e |-> "default", v |-> v, d |-> d]
+XMap(ps) == [e |-> "map", ps |-> ps]                             \* map[string]int{"k": v, ...}: ps = <<[k |-> bytes, v |-> int]>>
 \* template nodes.  ek: the end tag is written with its keyword ({% end if %}); bodies are sequences of nodes
 NText(s) == [k |-> "text", s |-> s]
 NShow(xs, br) == [k |-> "show", xs |-> xs, br |-> br]            \* br: {{ x }} (one operand) instead of {% show x %}
 NVar(v, x, short) == [k |-> "var", v |-> v, x |-> x, short |-> short]          \* {% var v = x %} / {% v := x %}
 NAssign(v, op, x) == [k |-> "assign", v |-> v, op |-> op, x |-> x]           \* op: = += -= ++ --
 NExpr(x) == [k |-> "expr", x |-> x]                              \* {% M(a) %}
+NComment(s) == [k |-> "comment", s |-> s]                       \* {# s #}: renders nothing
+NRaw(s, ek) == [k |-> "raw", s |-> s, ek |-> ek]                 \* {% raw %}s{% end raw %}: renders s as it is
 NBreak == [k |-> "break"]
 NContinue == [k |-> "continue"]
 \* init: <<>> or <<simple statement>>; els: <<>> = no else; elif: els is <<an if node>> written {% else if ... %}
 NIf(init, c, a, els, elif, ek) == [k |-> "if", init |-> init, c |-> c, a |-> a, els |-> els, elif |-> elif, ek |-> ek]
 NFor3(v, from, c, post, body, ek) == [k |-> "for3", v |-> v, from |-> from, c |-> c, post |-> post, body |-> body, ek |-> ek]
+NWhile(c, body, ek) == [k |-> "while", c |-> c, body |-> body, ek |-> ek]       \* {% for c %}body{% end %}
+NForever(body, ek) == [k |-> "forever", body |-> body, ek |-> ek]               \* {% for %}body{% end %}: left by a break
+NSelect(body, ek) == [k |-> "select", body |-> body, ek |-> ek]                 \* {% select %}{% default %}body{% end %}
 \* iv / vv: "" = absent, "_" = blank:  for range x | for i := range x | for i, v := range x | for _, v := range x
 NRange(iv, vv, x, body, els, ek) == [k |-> "range", iv |-> iv, vv |-> vv, x |-> x, body |-> body, els |-> els, ek |-> ek]
 NForIn(v, x, body, els, ek) == [k |-> "forin", v |-> v, x |-> x, body |-> body, els |-> els, ek |-> ek]
@@ -80,10 +88,11 @@ NUsing(stmt, mac, ps, paren, typ, body, ek) ==
   [k |-> "using", stmt |-> stmt, mac |-> mac, ps |-> ps, paren |-> paren, typ |-> typ, body |-> body, ek |-> ek]
 TmParam(n, t) == [n |-> n, t |-> t]
 \* the prelude that precedes every generated tree: variables of every type and three macros -
-\* M reads n (by reference), P has a parameter, K changes n (a side effect that shows whether a call was evaluated)
+\* M reads n (by reference), P has a parameter, K changes n (a side effect that shows whether a call was evaluated);
+\* c is the counter that bounds the generated {% for cond %} / {% for %} loops (they increment it first thing in their body)
 TmPrelude(id) ==
   IF id = "P1"
-  THEN <<NVar("n", XI(1), FALSE), NVar("s", XS(<<107>>), FALSE), NVar("b", XB(TRUE), FALSE),
+  THEN <<NVar("n", XI(1), FALSE), NVar("s", XS(<<107>>), FALSE), NVar("b", XB(TRUE), FALSE), NVar("c", XI(0), FALSE),
          NVar("l", XSl("int", <<XI(3), XI(4)>>), FALSE), NVar("q", XSl("string", <<XS(<<120>>), XS(<<121>>)>>), FALSE),
          NMacro("M", <<>>, FALSE, "", <<NText(<<109>>), NShow(<<XV("n")>>, TRUE)>>, FALSE),
          NMacro("P", <<TmParam("p", "string")>>, FALSE, "", <<NText(<<112>>), NShow(<<XV("p")>>, TRUE), NText(<<113>>)>>, FALSE),
@@ -93,6 +102,32 @@ TmPrelude(id) ==
 TmEpilogue(id) == IF id = "P1" THEN <<NShow(<<XV("n"), XV("s"), XV("b")>>, FALSE)>> ELSE <<>>
 TmWhole(id, tree) == TmPrelude(id) \o tree \o TmEpilogue(id)
 
+(* Layouts: how a case is spread over files, and the ONE-FILE tree it is equivalent to (the reference semantics of import,
+   extends and render, after Scriggo's documentation comments and tests: an imported file contributes its exported declarations;
+   an extending file contributes its declarations to the extended file, which is what is rendered, and `M() default e` there is
+   M() if the extending file declares M, else e; {{ render "p" }} renders p on its own - a call of a macro without parameters whose
+   body is the file - and `render "q" default e` is e when q does not exist).  W = prelude tree epilogue, D = the prelude:
+     single       index:  W
+     import       index:  {% import "f" %}x{{ Main() }}{{ V }}         f:  D {% var V = 7 %}{% macro Main %}tree epilogue{% end %}
+     importas     index:  {% import m "f" %}x{{ m.Main() }}{{ m.V }}   f:  the same
+     extends      index:  {% extends "l" %} D {% macro Body %}tree epilogue{% end %}
+                  l:      x{{ Body() }}y{{ Side() default "d" }}{{ Und(1, "a") default "e" }}
+     extendsside  the same with {% macro Side %}s{% end %} at the end of index
+     render       index:  a{{ render "p" }}b{{ render "p" }}{{ render "q" default "d" }}      p:  W        (q does not exist) *)
+TmLayouts == {"single", "import", "importas", "extends", "extendsside", "render"}
+TmCallShow(f) == NShow(<<XCall(f, <<>>)>>, TRUE)
+TmEquiv(lay, id, tree) ==
+  LET D == TmPrelude(id)  body == tree \o TmEpilogue(id) IN
+  CASE lay = "single" -> D \o body
+    [] lay \in {"import", "importas"} ->
+         D \o <<NVar("V", XI(7), FALSE), NMacro("Main", <<>>, FALSE, "", body, FALSE), NText(<<120>>), TmCallShow("Main"), NShow(<<XV("V")>>, TRUE)>>
+    [] lay \in {"extends", "extendsside"} ->
+         D \o <<NMacro("Body", <<>>, FALSE, "", body, FALSE)>>
+           \o (IF lay = "extendsside" THEN <<NMacro("Side", <<>>, FALSE, "", <<NText(<<115>>)>>, FALSE)>> ELSE <<>>)
+           \o <<NText(<<120>>), TmCallShow("Body"), NText(<<121>>), IF lay = "extendsside" THEN TmCallShow("Side") ELSE NText(<<100>>), NText(<<101>>)>>
+    [] lay = "render" ->
+         <<NMacro("R", <<>>, FALSE, "", D \o body, FALSE), NText(<<97>>), TmCallShow("R"), NText(<<98>>), TmCallShow("R"), NText(<<100>>)>>
+
 (* =====================================================================================
    PART 2 - values, heap, environments
    ===================================================================================== *)
@@ -100,10 +135,11 @@ VInt(n) == [t |-> "int", n |-> n]
 VStr(s) == [t |-> "str", s |-> s]
 VBool(b) == [t |-> "bool", b |-> b]
 VSlice(a) == [t |-> "slice", a |-> a]                             \* a: sequence of values
+VMap(ps) == [t |-> "map", ps |-> ps]                              \* ps: sequence of <<key value, value>>
 VMacro(ps, body, env) == [t |-> "macro", ps |-> ps, body |-> body, env |-> env]
 \* Scriggo's truth of a value in a condition
 TmTruthy(v) == CASE v.t = "int" -> v.n # 0 [] v.t = "str" -> v.s # <<>> [] v.t = "bool" -> v.b
-                 [] v.t = "slice" -> v.a # <<>> [] OTHER -> TRUE     \* a macro value is never nil here
+                 [] v.t = "slice" -> v.a # <<>> [] v.t = "map" -> v.ps # <<>> [] OTHER -> TRUE     \* a macro value is never nil here
 
 RECURSIVE TmDigits(_)
 TmDigits(n) == IF n < 10 THEN <<48 + n>> ELSE TmDigits(n \div 10) \o <<48 + (n % 10)>>
@@ -130,6 +166,8 @@ TmEnv0 == [x \in TmNames |-> 0]
 TmGlobalIdx(glob, name) == LET hits == {j \in 1..Len(glob) : glob[j].n = name} IN IF hits = {} THEN 0 ELSE CHOOSE j \in hits : TRUE
 TmGlobalVal(g) == IF g.t = "str" THEN VStr(g.s) ELSE VInt(g.i)
 
+TmMaxStr == 400
+TmMaxOut == 4000
 \* results.  err: "" | "run" (a run-time error of the template) | "fuel" / "undef" (outside the reference's domain)
 ER(v, st) == [v |-> v, st |-> st, err |-> ""]
 EE(kind, st) == [v |-> VBool(FALSE), st |-> st, err |-> kind]
@@ -161,8 +199,15 @@ TmStmtIteaLive(s, glob) == CASE s.k = "show" -> TmIteaLiveAny(s.xs, 1, glob)
    value of the macro / using body being evaluated); mode = "periter" (Go >= 1.22) or "shared" (one loop variable for
    all iterations: the pre-1.22 reading, computed only to NAME that root cause in a mismatch).
    ===================================================================================== *)
+\* what a range statement iterates over: <<first value, second value>> per iteration.  slice: index, element; string: byte
+\* index of the rune, rune (UTF-8 decoding, lib/Utf8.tla); map: key, value (the generated maps have at most one key: no order)
+RECURSIVE TmStrItems(_, _)
+TmStrItems(str, i) == IF i > Len(str) THEN <<>> ELSE LET d == DecodeRune(str, i) IN <<<<VInt(i - 1), VInt(d[1])>>>> \o TmStrItems(str, i + d[2])
+TmItems(v) == CASE v.t = "slice" -> [j \in 1..Len(v.a) |-> <<VInt(j - 1), v.a[j]>>] [] v.t = "str" -> TmStrItems(v.s, 1) [] v.t = "map" -> v.ps
+\* {% for v in x %}: v is the element / the rune / the KEY of a map (Scriggo: checker_statements.go case *ast.ForIn)
+TmForInItems(v) == LET it == TmItems(v) IN [j \in 1..Len(it) |-> <<it[j][1], IF v.t = "map" THEN it[j][1] ELSE it[j][2]>>]
 RECURSIVE TmEval(_, _, _), TmEvalList(_, _, _, _, _), TmCallClo(_, _, _), TmExecBody(_, _, _, _), TmExec(_, _, _),
-          TmFor3Iter(_, _, _), TmRangeIter(_, _, _, _, _, _), TmMatch(_, _, _, _, _, _), TmSwitchRun(_, _, _, _), TmShowAll(_, _, _, _)
+          TmFor3Iter(_, _, _), TmWhileIter(_, _, _), TmRangeIter(_, _, _, _, _, _), TmMatch(_, _, _, _, _, _), TmSwitchRun(_, _, _, _), TmShowAll(_, _, _, _)
 
 RECURSIVE TmBind(_, _, _, _)
 TmBind(env, ps, j, n0) == IF j > Len(ps) THEN env ELSE TmBind([env EXCEPT ![ps[j].n] = n0 + j], ps, j + 1, n0)
@@ -182,11 +227,13 @@ TmEval(x, env, st) ==
     [] x.e = "str" -> ER(VStr(x.s), st)
     [] x.e = "bool" -> ER(VBool(x.b), st)
     [] x.e = "slice" -> LET r == TmEvalList(x.xs, 1, env, st, <<>>) IN IF r.err # "" THEN r ELSE ER(VSlice(r.v), r.st)
+    [] x.e = "map" -> ER(VMap([j \in 1..Len(x.ps) |-> <<VStr(x.ps[j].k), VInt(x.ps[j].v)>>]), st)
     [] x.e = "var" -> IF x.v \notin TmNames \/ env[x.v] = 0 THEN EE("undef", st) ELSE ER(st.heap[env[x.v]], st)
     [] x.e = "bin" ->
          LET ra == TmEval(x.a, env, st) IN IF ra.err # "" THEN ra ELSE
          LET rb == TmEval(x.b, env, ra.st) IN IF rb.err # "" THEN rb ELSE
-         IF ra.v.t = "str" /\ rb.v.t = "str" /\ x.op = "+" THEN ER(VStr(ra.v.s \o rb.v.s), rb.st)
+         IF ra.v.t = "str" /\ rb.v.t = "str" /\ x.op = "+"
+         THEN (IF Len(ra.v.s) + Len(rb.v.s) > TmMaxStr THEN EE("fuel", rb.st) ELSE ER(VStr(ra.v.s \o rb.v.s), rb.st))
          ELSE IF ra.v.t # "int" \/ rb.v.t # "int" THEN EE("undef", rb.st)
          ELSE IF x.op \in {"/", "%"} /\ rb.v.n = 0 THEN EE("run", rb.st)              \* integer divide by zero
          ELSE ER(VInt(TmArith(x.op, ra.v.n, rb.v.n)), rb.st)
@@ -204,7 +251,8 @@ TmEval(x, env, st) ==
     [] x.e = "not" -> LET ra == TmEval(x.a, env, st) IN IF ra.err # "" THEN ra ELSE ER(VBool(~TmTruthy(ra.v)), ra.st)
     [] x.e = "len" -> LET ra == TmEval(x.a, env, st) IN IF ra.err # "" THEN ra
                       ELSE IF ra.v.t = "str" THEN ER(VInt(Len(ra.v.s)), ra.st)
-                      ELSE IF ra.v.t = "slice" THEN ER(VInt(Len(ra.v.a)), ra.st) ELSE EE("undef", ra.st)
+                      ELSE IF ra.v.t = "slice" THEN ER(VInt(Len(ra.v.a)), ra.st)
+                      ELSE IF ra.v.t = "map" THEN ER(VInt(Len(ra.v.ps)), ra.st) ELSE EE("undef", ra.st)
     [] x.e = "idx" ->
          LET ra == TmEval(x.a, env, st) IN IF ra.err # "" THEN ra ELSE
          LET ri == TmEval(x.i, env, ra.st) IN IF ri.err # "" THEN ri ELSE
@@ -232,6 +280,7 @@ TmShowAll(xs, i, env, st) ==
   ELSE LET r == TmEval(xs[i], env, st) IN
        IF r.err # "" THEN SR(r.err, env, r.st)
        ELSE IF ~TmShowable(r.v) THEN SR("undef", env, r.st)
+       ELSE IF Len(r.st.out) > TmMaxOut THEN SR("fuel", env, r.st)
        ELSE TmShowAll(xs, i + 1, env, [r.st EXCEPT !.out = @ \o TmRender(r.v)])
 
 TmExecBody(b, i, env, st) ==
@@ -244,6 +293,8 @@ TmInit(init, env, st) == IF init = <<>> THEN SR("next", env, st) ELSE TmExec(ini
 
 TmExec(nd, env, st) ==
   CASE nd.k = "text" -> SR("next", env, [st EXCEPT !.out = @ \o nd.s])
+    [] nd.k = "comment" -> SR("next", env, st)
+    [] nd.k = "raw" -> SR("next", env, [st EXCEPT !.out = @ \o nd.s])
     [] nd.k = "show" -> TmShowAll(nd.xs, 1, env, st)
     [] nd.k = "var" ->
          LET r == TmEval(nd.x, env, st) IN IF r.err # "" THEN SR(r.err, env, r.st)
@@ -259,7 +310,8 @@ TmExec(nd, env, st) ==
               LET cur == r.st.heap[env[nd.v]] IN                 \* v op= x: Go does not specify whether v is read before or after x is
               IF nd.op = "=" THEN                                  \* evaluated; no generated x changes the variable it is added to
                  (IF cur.t # r.v.t THEN SR("undef", env, r.st) ELSE SR("next", env, [r.st EXCEPT !.heap[env[nd.v]] = r.v]))
-              ELSE IF nd.op = "+=" /\ cur.t = "str" /\ r.v.t = "str" THEN SR("next", env, [r.st EXCEPT !.heap[env[nd.v]] = VStr(cur.s \o r.v.s)])
+              ELSE IF nd.op = "+=" /\ cur.t = "str" /\ r.v.t = "str"
+                   THEN (IF Len(cur.s) + Len(r.v.s) > TmMaxStr THEN SR("fuel", env, r.st) ELSE SR("next", env, [r.st EXCEPT !.heap[env[nd.v]] = VStr(cur.s \o r.v.s)]))
               ELSE IF nd.op \in {"+=", "-="} /\ cur.t = "int" /\ r.v.t = "int"
                    THEN SR("next", env, [r.st EXCEPT !.heap[env[nd.v]] = VInt(IF nd.op = "+=" THEN cur.n + r.v.n ELSE cur.n - r.v.n)])
               ELSE SR("undef", env, r.st)
@@ -273,18 +325,22 @@ TmExec(nd, env, st) ==
          LET ri == TmEval(nd.from, env, st) IN IF ri.err # "" THEN SR(ri.err, env, ri.st)
          ELSE IF nd.v \notin TmNames THEN SR("undef", env, ri.st)
          ELSE LET s2 == TmAlloc(ri.st, ri.v) IN TmScoped(TmFor3Iter(nd, [env EXCEPT ![nd.v] = Len(s2.heap)], s2), env)
+    [] nd.k \in {"while", "forever"} -> TmScoped(TmWhileIter(nd, env, st), env)
+    [] nd.k = "select" ->                                 \* only a default clause: it is chosen; a break leaves the select
+         LET r == TmExecBody(nd.body, 1, env, st) IN TmScoped(IF r.sig = "break" THEN SR("next", env, r.st) ELSE r, env)
     [] nd.k \in {"range", "forin"} ->
          LET rx == TmEval(nd.x, env, st) IN IF rx.err # "" THEN SR(rx.err, env, rx.st)
-         ELSE IF rx.v.t # "slice" THEN SR("undef", env, rx.st)
-         ELSE IF rx.v.a = <<>> THEN TmScoped(TmExecBody(nd.els, 1, env, rx.st), env)          \* no element: the else body
-         ELSE LET iv == IF nd.k = "range" /\ nd.iv \notin {"", "_"} THEN nd.iv ELSE ""
+         ELSE IF rx.v.t \notin {"slice", "str", "map"} THEN SR("undef", env, rx.st)
+         ELSE IF ~TmTruthy(rx.v) THEN TmScoped(TmExecBody(nd.els, 1, env, rx.st), env)         \* no element: the else body
+         ELSE LET items == IF nd.k = "forin" THEN TmForInItems(rx.v) ELSE TmItems(rx.v)
+                  iv == IF nd.k = "range" /\ nd.iv \notin {"", "_"} THEN nd.iv ELSE ""
                   vv == IF nd.k = "forin" THEN nd.v ELSE IF nd.vv \notin {"", "_"} THEN nd.vv ELSE ""
                   \* "shared": one cell per loop variable, allocated here and overwritten by every iteration
                   s1 == IF st.mode = "shared" /\ iv # "" THEN TmAlloc(rx.st, VInt(0)) ELSE rx.st
                   e1 == IF st.mode = "shared" /\ iv # "" THEN [env EXCEPT ![iv] = Len(s1.heap)] ELSE env
                   s2 == IF st.mode = "shared" /\ vv # "" THEN TmAlloc(s1, VInt(0)) ELSE s1
                   e2 == IF st.mode = "shared" /\ vv # "" THEN [e1 EXCEPT ![vv] = Len(s2.heap)] ELSE e1 IN
-              TmScoped(TmRangeIter(nd.body, iv, vv, rx.v.a, 1, [env |-> e2, st |-> s2]), env)
+              TmScoped(TmRangeIter(nd.body, iv, vv, items, 1, [env |-> e2, st |-> s2]), env)
     [] nd.k = "switch" ->
          LET ri == TmInit(nd.init, env, st) IN IF ri.sig # "next" THEN TmScoped(ri, env) ELSE
          LET rt == IF nd.tag = <<>> THEN ER(VBool(TRUE), ri.st) ELSE TmEval(nd.tag[1], ri.env, ri.st) IN
@@ -312,6 +368,17 @@ TmExec(nd, env, st) ==
               [r EXCEPT !.env = [r.env EXCEPT !["itea"] = env["itea"]]]
     [] OTHER -> SR("undef", env, st)
 
+\* one test-and-iteration of {% for c %} / {% for %}
+TmWhileIter(nd, env, st) ==
+  IF st.fuel <= 0 THEN SR("fuel", env, st) ELSE
+  LET rc == IF nd.k = "forever" THEN ER(VBool(TRUE), TmBurn(st)) ELSE TmEval(nd.c, env, TmBurn(st)) IN
+  IF rc.err # "" THEN SR(rc.err, env, rc.st)
+  ELSE IF rc.v.t # "bool" THEN SR("undef", env, rc.st)
+  ELSE IF ~rc.v.b THEN SR("next", env, rc.st)
+  ELSE LET rb == TmExecBody(nd.body, 1, env, rc.st) IN
+       IF rb.sig \in {"next", "continue"} THEN TmWhileIter(nd, env, rb.st)
+       ELSE IF rb.sig = "break" THEN SR("next", env, rb.st) ELSE rb
+
 \* one test-and-iteration of {% for v := from; c; post %}; env holds this iteration's copy of the loop variable
 TmFor3Iter(nd, env, st) ==
   IF st.fuel <= 0 THEN SR("fuel", env, st) ELSE
@@ -328,15 +395,15 @@ TmFor3Iter(nd, env, st) ==
        ELSE IF rb.sig = "break" THEN SR("next", env, rb.st)
        ELSE rb
 
-\* iteration j over the elements a; es = [env, st]
+\* iteration j over the items a (pairs); es = [env, st]
 TmRangeIter(body, iv, vv, a, j, es) ==
   IF j > Len(a) THEN SR("next", es.env, es.st)
   ELSE IF es.st.fuel <= 0 THEN SR("fuel", es.env, es.st)
   ELSE LET shared == es.st.mode = "shared"
            s0 == TmBurn(es.st)
-           s1 == IF iv = "" THEN s0 ELSE IF shared THEN [s0 EXCEPT !.heap[es.env[iv]] = VInt(j - 1)] ELSE TmAlloc(s0, VInt(j - 1))
+           s1 == IF iv = "" THEN s0 ELSE IF shared THEN [s0 EXCEPT !.heap[es.env[iv]] = a[j][1]] ELSE TmAlloc(s0, a[j][1])
            e1 == IF iv = "" \/ shared THEN es.env ELSE [es.env EXCEPT ![iv] = Len(s1.heap)]
-           s2 == IF vv = "" THEN s1 ELSE IF shared THEN [s1 EXCEPT !.heap[e1[vv]] = a[j]] ELSE TmAlloc(s1, a[j])
+           s2 == IF vv = "" THEN s1 ELSE IF shared THEN [s1 EXCEPT !.heap[e1[vv]] = a[j][2]] ELSE TmAlloc(s1, a[j][2])
            e2 == IF vv = "" \/ shared THEN e1 ELSE [e1 EXCEPT ![vv] = Len(s2.heap)]
            rb == TmExecBody(body, 1, e2, s2) IN
        IF rb.sig \in {"next", "continue"} THEN TmRangeIter(body, iv, vv, a, j + 1, [env |-> es.env, st |-> rb.st])
@@ -360,6 +427,8 @@ TmSwitchRun(cls, j, env, st) ==
   ELSE r
 
 TmFuel == 300
+\* (strings and outputs beyond these lengths are outside the reference's domain: a generated template that doubles a string in
+\*  nested loops is dropped by the generator instead of being rendered)
 \* a whole template.  outcome: "ok" (out = the rendered bytes) | "runerror" | "undef" (no opinion)
 TmRun(tree, glob, mode) ==
   LET r == TmExecBody(tree, 1, TmEnv0, [heap |-> <<>>, out |-> <<>>, glob |-> glob, fuel |-> TmFuel, mode |-> mode]) IN
@@ -369,14 +438,16 @@ TmRun(tree, glob, mode) ==
 (* =====================================================================================
    PART 4 - the printer: a tree as template source (no white space between tags; text is letters)
    ===================================================================================== *)
+RECURSIVE TmPPairs(_, _)
 RECURSIVE TmPx(_), TmPxList(_, _), TmPBody(_, _), TmPNode(_), TmPIf(_, _), TmPStmt(_), TmPClauses(_, _), TmPParams(_, _), TmPOp(_)
-TmAtomic(x) == x.e \in {"int", "str", "bool", "var", "call", "len", "idx", "slice"}
+TmAtomic(x) == x.e \in {"int", "str", "bool", "var", "call", "len", "idx", "slice", "map"}
 TmPOp(x) == IF TmAtomic(x) THEN TmPx(x) ELSE <<40>> \o TmPx(x) \o <<41>>
 TmPx(x) ==
   CASE x.e = "int" -> TmDec(x.n)
     [] x.e = "str" -> <<34>> \o x.s \o <<34>>
     [] x.e = "bool" -> IF x.b THEN TtS("true") ELSE TtS("false")
     [] x.e = "slice" -> TtS("[]") \o TtS(x.et) \o <<123>> \o TmPxList(x.xs, 1) \o <<125>>
+    [] x.e = "map" -> TtS("map[string]int{") \o TmPPairs(x.ps, 1) \o <<125>>
     [] x.e = "var" -> TtS(x.v)
     [] x.e \in {"bin", "cmp"} -> TmPOp(x.a) \o <<32>> \o TtS(x.op) \o <<32>> \o TmPOp(x.b)
     [] x.e = "and" -> TmPOp(x.a) \o (IF x.go THEN TtS(" && ") ELSE TtS(" and ")) \o TmPOp(x.b)
@@ -386,6 +457,7 @@ TmPx(x) ==
     [] x.e = "idx" -> TmPOp(x.a) \o <<91>> \o TmPx(x.i) \o <<93>>
     [] x.e = "call" -> TtS(x.f) \o <<40>> \o TmPxList(x.args, 1) \o <<41>>
     [] x.e = "default" -> TtS(x.v) \o TtS(" default ") \o TmPOp(x.d)
+TmPPairs(ps, i) == IF i > Len(ps) THEN <<>> ELSE (IF i > 1 THEN TtS(", ") ELSE <<>>) \o <<34>> \o ps[i].k \o <<34>> \o TtS(": ") \o TmDec(ps[i].v) \o TmPPairs(ps, i + 1)
 TmPxList(xs, i) == IF i > Len(xs) THEN <<>> ELSE (IF i > 1 THEN TtS(", ") ELSE <<>>) \o TmPx(xs[i]) \o TmPxList(xs, i + 1)
 TmPParams(ps, i) == IF i > Len(ps) THEN <<>>
                     ELSE (IF i > 1 THEN TtS(", ") ELSE <<>>) \o TtS(ps[i].n) \o <<32>> \o TtS(ps[i].t) \o TmPParams(ps, i + 1)
@@ -411,6 +483,11 @@ TmPClauses(cls, j) ==
        \o TmPBody(cls[j].body, 1) \o (IF cls[j].ft THEN TtS("{% fallthrough %}") ELSE <<>>) \o TmPClauses(cls, j + 1)
 TmPNode(nd) ==
   CASE nd.k = "text" -> nd.s
+    [] nd.k = "comment" -> TtS("{# ") \o nd.s \o TtS(" #}")
+    [] nd.k = "raw" -> TtS("{% raw %}") \o nd.s \o TmPEnd(nd.ek, "raw")
+    [] nd.k = "while" -> TmTag(TtS("for ") \o TmPx(nd.c)) \o TmPBody(nd.body, 1) \o TmPEnd(nd.ek, "for")
+    [] nd.k = "forever" -> TtS("{% for %}") \o TmPBody(nd.body, 1) \o TmPEnd(nd.ek, "for")
+    [] nd.k = "select" -> TtS("{% select %}{% default %}") \o TmPBody(nd.body, 1) \o TmPEnd(nd.ek, "select")
     [] nd.k = "show" -> IF nd.br THEN TtS("{{ ") \o TmPx(nd.xs[1]) \o TtS(" }}") ELSE TmTag(TmPStmt(nd))
     [] nd.k \in {"var", "assign", "expr", "break", "continue"} -> TmTag(TmPStmt(nd))
     [] nd.k = "if" -> TmPIf(nd, TRUE) \o TmPEnd(nd.ek, "if")
@@ -433,11 +510,31 @@ TmPNode(nd) ==
                \o (IF nd.typ = "" THEN <<>> ELSE <<32>> \o TtS(nd.typ)))
          \o TmPBody(nd.body, 1) \o TmPEnd(nd.ek, "using")
 TmSrc(tree) == TmPBody(tree, 1)
+\* the files of a layout: <<[name, head, tail, hole]>>; the file with hole = TRUE is head ++ source of the tree ++ tail, the others
+\* are head; the first one is the entry; ext = "txt" / "html" is appended to every name
+TmQ(name, ext) == <<34>> \o TtS(name) \o <<46>> \o TtS(ext) \o <<34>>
+TmFile(name, head, tail, hole) == [name |-> name, head |-> head, tail |-> tail, hole |-> hole]
+TmFrame(lay, id, ext) ==
+  LET D == TmSrc(TmPrelude(id))  E == TmSrc(TmEpilogue(id)) IN
+  CASE lay = "single" -> <<TmFile("index", D, E, TRUE)>>
+    [] lay \in {"import", "importas"} ->
+         <<TmFile("index", IF lay = "import" THEN TtS("{% import ") \o TmQ("f", ext) \o TtS(" %}x{{ Main() }}{{ V }}")
+                           ELSE TtS("{% import m ") \o TmQ("f", ext) \o TtS(" %}x{{ m.Main() }}{{ m.V }}"), <<>>, FALSE),
+           TmFile("f", D \o TtS("{% var V = 7 %}{% macro Main %}"), E \o TtS("{% end %}"), TRUE)>>
+    [] lay \in {"extends", "extendsside"} ->
+         <<TmFile("index", TtS("{% extends ") \o TmQ("l", ext) \o TtS(" %}") \o D \o TtS("{% macro Body %}"),
+                  E \o TtS("{% end %}") \o (IF lay = "extendsside" THEN TtS("{% macro Side %}s{% end %}") ELSE <<>>), TRUE),
+           TmFile("l", TtS("x{{ Body() }}y{{ Side() default ") \o <<34, 100, 34>> \o TtS(" }}{{ Und(1, ") \o <<34, 97, 34>> \o TtS(") default ") \o <<34, 101, 34>> \o TtS(" }}"), <<>>, FALSE)>>
+    [] lay = "render" ->
+         <<TmFile("index", TtS("a{{ render ") \o TmQ("p", ext) \o TtS(" }}b{{ render ") \o TmQ("p", ext) \o TtS(" }}{{ render ") \o TmQ("q", ext)
+                           \o TtS(" default ") \o <<34, 100, 34>> \o TtS(" }}"), <<>>, FALSE),
+           TmFile("p", D, E, TRUE)>>
 
 \* ---- measures used by the generator and the judge
 RECURSIVE TmSize(_, _), TmNodeSize(_), TmKindsOf(_, _), TmNodeKinds(_)
 TmBodiesOf(nd) == CASE nd.k = "if" -> <<nd.a, nd.els>> [] nd.k = "for3" -> <<nd.body>> [] nd.k \in {"range", "forin"} -> <<nd.body, nd.els>>
-                    [] nd.k = "switch" -> [j \in 1..Len(nd.cls) |-> nd.cls[j].body] [] nd.k \in {"macro", "using"} -> <<nd.body>> [] OTHER -> <<>>
+                    [] nd.k = "switch" -> [j \in 1..Len(nd.cls) |-> nd.cls[j].body] [] nd.k \in {"macro", "using", "while", "forever", "select"} -> <<nd.body>>
+                    [] OTHER -> <<>>
 TmNodeSize(nd) == LET bs == TmBodiesOf(nd) IN 1 + TmSize(bs, 1)
 TmSize(bs, i) == IF i > Len(bs) THEN 0 ELSE LET b == bs[i] IN
                  (IF b = <<>> THEN 0 ELSE LET F[j \in 0..Len(b)] == IF j = 0 THEN 0 ELSE F[j - 1] + TmNodeSize(b[j]) IN F[Len(b)]) + TmSize(bs, i + 1)
@@ -453,6 +550,8 @@ TmTreeKinds(tree) == TmKindsOf(<<tree>>, 1)
 \*                      nested in a three-clause for or a switch
 \*   "continue-in-for"  a continue whose innermost enclosing loop is a three-clause for that itself is nested in a range (or for in)
 \*   "end-using-in-typed-body"  {% end using %}, written with its keyword, inside a macro / using body whose type is written
+\*   "for-without-condition"    a {% for %} statement;  "map-range-key"  a range over a map that declares the key variable;
+\*   "fallthrough-after-macro-or-using"  a clause that ends with fallthrough and has a macro declaration or a using statement
 \* brk: innermost statement a break refers to ("" / "range" / "for3" / "switch"); loop: innermost loop; outer: a for3 or switch
 \* encloses; inrange: a range encloses
 RECURSIVE TmPatBody(_, _, _), TmPatNode(_, _)
@@ -460,9 +559,14 @@ TmPatNode(nd, c) ==
   CASE nd.k = "break" -> IF c.brk = "range" /\ c.outer THEN {"break-in-range"} ELSE {}
     [] nd.k = "continue" -> IF c.loop = "for3" /\ c.inrange THEN {"continue-in-for"} ELSE {}
     [] nd.k = "if" -> TmPatBody(nd.a, 1, c) \cup TmPatBody(nd.els, 1, c)
-    [] nd.k = "for3" -> TmPatBody(nd.body, 1, [c EXCEPT !.brk = "for3", !.loop = "for3", !.outer = TRUE])
-    [] nd.k \in {"range", "forin"} -> TmPatBody(nd.body, 1, [c EXCEPT !.brk = "range", !.loop = "range", !.inrange = TRUE]) \cup TmPatBody(nd.els, 1, c)
-    [] nd.k = "switch" -> UNION {TmPatBody(nd.cls[j].body, 1, [c EXCEPT !.brk = "switch", !.outer = TRUE]) : j \in 1..Len(nd.cls)}
+    [] nd.k \in {"for3", "while", "forever"} -> (IF nd.k = "forever" THEN {"for-without-condition"} ELSE {})
+                                                 \cup TmPatBody(nd.body, 1, [c EXCEPT !.brk = "for3", !.loop = "for3", !.outer = TRUE])
+    [] nd.k = "select" -> TmPatBody(nd.body, 1, [c EXCEPT !.brk = "switch", !.outer = TRUE])
+    [] nd.k \in {"range", "forin"} -> (IF nd.x.e = "map" /\ (nd.k = "forin" \/ nd.iv \notin {"", "_"}) THEN {"map-range-key"} ELSE {})
+                                      \cup TmPatBody(nd.body, 1, [c EXCEPT !.brk = "range", !.loop = "range", !.inrange = TRUE]) \cup TmPatBody(nd.els, 1, c)
+    [] nd.k = "switch" -> (IF \E j \in 1..Len(nd.cls) : nd.cls[j].ft /\ \E q \in 1..Len(nd.cls[j].body) : nd.cls[j].body[q].k \in {"macro", "using"}
+                           THEN {"fallthrough-after-macro-or-using"} ELSE {})
+                          \cup UNION {TmPatBody(nd.cls[j].body, 1, [c EXCEPT !.brk = "switch", !.outer = TRUE]) : j \in 1..Len(nd.cls)}
     [] nd.k = "macro" -> TmPatBody(nd.body, 1, [c EXCEPT !.brk = "", !.loop = "", !.typed = @ \/ nd.rt # ""])
     [] nd.k = "using" -> (IF nd.ek /\ c.typed THEN {"end-using-in-typed-body"} ELSE {})
                          \cup TmPatBody(nd.body, 1, [c EXCEPT !.brk = "", !.loop = "", !.typed = @ \/ nd.typ # ""])
